@@ -414,8 +414,8 @@ class Path:
         """Materialise a lazy symbolic value."""
         typ = lz.typ
         ov = self.ex.overrides.get(lz.name)
-        if ov is not None:
-            typ = ov
+        if ov is not None and not (ov == ('numstr',) and typ != ('str',)):
+            typ = ov          # (a 'numstr' override only refines a field declared `str`)
         return self.fresh(typ, lz.name)
 
     def fresh(self, typ, name: str):
@@ -486,6 +486,11 @@ class Path:
             return Opaque(f'{name}:any')
         if k == 'str':
             return Opaque(f'{name}:str')
+        if k == 'const':
+            return typ[1]
+        if k == 'numstr':
+            from .strings import SymStr
+            return SymStr(None, name)
         raise Unsupported(f'fresh value of type {typ}')
 
     # ------------------------------------------------------------- globals
@@ -853,10 +858,17 @@ class Path:
             return v.bits != 0
         if isinstance(v, (FuncV, ClassV, ExtV, ModV, LambdaV)):
             return True
+        if type(v).__name__ == 'FreeCons':
+            return True
         if isinstance(v, SymFloat):
             raise Unsupported('truthiness of symbolic float')
         if isinstance(v, seqs.KINDS):
             return seqs.truthy(self, v)
+        if type(v).__name__ == 'SymStr':
+            from . import strings
+            return strings.truthy(self, v)
+        if type(v).__name__ in ('MatchV', 'RegexV'):
+            return True
         raise Unsupported(f'truthiness of {v!r}')
 
     def binop(self, op, a, b, node=None):
@@ -926,7 +938,38 @@ class Path:
             if self.branch(y == 0, 'div0'):
                 raise SymRaise(mk_exc('ZeroDivisionError'))
             return simp(x / y)
+        if op is ast.Pow:
+            return self.real_pow(a, b)
         raise Unsupported(f'real binop {op.__name__}')
+
+    def real_pow(self, a, e):
+        """Fraction(int) ** int, exactly as fractions.Fraction.__pow__: b^e for e >= 0, 1/b^-e for e < 0
+        (ZeroDivisionError when b == 0).  Only integer-valued bases are modelled."""
+        if not is_intlike(e):
+            raise Unsupported('Fraction ** non-int')
+        if isinstance(a, Fraction):
+            if a.denominator != 1:
+                raise Unsupported('non-integer Fraction base of **')
+            bi = a.numerator
+        elif is_z3(a) and z3.is_to_real(a):
+            bi = a.arg(0)
+        else:
+            raise Unsupported(f'** on real base {a!r}')
+        e_ = as_int(e)
+        if isinstance(e_, int) and isinstance(bi, int):
+            return Fraction(bi) ** e_
+        ez = as_z3int(e_)
+
+        def ip(k):
+            if isinstance(bi, int) and bi == 2:
+                return theory.pow2(k)
+            return theory.ipow(as_z3int(bi), k)
+        if self.branch(simp(ez < 0), 'pow<0'):
+            if not isinstance(bi, int) or bi == 0:
+                if self.branch(simp(as_z3int(bi) == 0), 'pow base==0'):
+                    raise SymRaise(mk_exc('ZeroDivisionError'))
+            return simp(1 / z3.ToReal(ip(simp(-ez))))
+        return z3.ToReal(ip(ez))
 
     def binop_int(self, op, a, b):
         T = self.ex.tags
@@ -1046,8 +1089,16 @@ class Path:
         d = simp(as_z3int(a) - as_z3int(b))
         if isinstance(d, int) and d in (1, -1):
             big = a if d == 1 else b
-            # big & (big - 1) == clear lowest set bit: model via spec function lowbit
-            raise Unsupported('x & (x-1)')
+            # big & (big - 1) clears the lowest set bit of big.  Modelled by a fresh integer r with the
+            # facts (law CL, self-tested in tools/selftest_c06.py): for big >= 1: 0 <= r < big and
+            # (r == 0  <=>  big == 2^(bit_length(big)-1)); for big == 0: r == 0.  Negative big: unsupported.
+            bz = as_z3int(big)
+            if self.branch(simp(bz < 0), 'x&(x-1): x<0'):
+                raise Unsupported('x & (x-1) with negative x')
+            r = z3.Int(self.fresh_name('clrlow'))
+            self.assume(z3.And(r >= 0, z3.Implies(bz == 0, r == 0),
+                               z3.Implies(bz >= 1, z3.And(r < bz, (r == 0) == (bz == theory.pow2(theory.bl(bz) - 1))))), fact=True)
+            return r
         raise Unsupported(f'symbolic & of {a} and {b}')
 
     def bitor(self, a, b):
@@ -1193,6 +1244,9 @@ class Path:
             return seqs.equal(self, a, b)
         if isinstance(a, SymKey) or isinstance(b, SymKey):   # containers
             return containers.key_equal(a, b)
+        if type(a).__name__ == 'SymStr' or type(b).__name__ == 'SymStr':
+            from . import strings
+            return strings.equal(self, a, b) if type(a).__name__ == 'SymStr' else strings.equal(self, b, a)
         if isinstance(a, SObj) or isinstance(b, SObj):
             NI = ExtV('builtins.NotImplemented')
             if isinstance(a, SObj):
@@ -1269,6 +1323,9 @@ class Path:
             return seqs.contains(self, container, item)
         if isinstance(container, (SymMap, SymSet)):   # containers
             return containers.contains(self, container, item)
+        if type(container).__name__ == 'SymStr':
+            from . import strings
+            return strings.contains(self, container, item)
         if isinstance(container, (tuple, list)):
             rs = [self.equal(x, item) for x in container]
             if any(r is True for r in rs):
@@ -1403,6 +1460,14 @@ class Path:
                 return v.args
         if isinstance(v, Opaque):
             return Opaque(f'{v.tag}.{attr}')
+        if type(v).__name__ == 'SymStr':
+            return BoundBuiltin(f'symstr.{attr}', v)
+        if type(v).__name__ == 'MatchV':
+            return BoundBuiltin(f'match.{attr}', v)
+        if type(v).__name__ == 'FreeCons':
+            if attr in v.fields:
+                return v.fields[attr]
+            raise SymRaise(mk_exc('AttributeError'), f'{v.name}.{attr}')
         raise Unsupported(f'attribute {attr} of {v!r}')
 
     def class_attr(self, ci: ClassInfo, attr: str, expr):
